@@ -148,3 +148,112 @@ def apply_patch_in_memory(repo: str, patch_text: str) -> dict[str, str]:
             except SyntaxError as e:
                 raise VariantNotApplicable(f"patched {rel} does not parse: {e}") from e
     return overlay
+
+
+# ---------------------------------------------------------------------------
+# behaviour-preserving twins: consistent renames of local variables
+# ---------------------------------------------------------------------------
+
+def locals_of(fn):
+    params = {a.arg for a in fn.args.posonlyargs + fn.args.args + fn.args.kwonlyargs}
+    if fn.args.vararg:
+        params.add(fn.args.vararg.arg)
+    if fn.args.kwarg:
+        params.add(fn.args.kwarg.arg)
+    names = set()
+    banned = set()
+
+    def walk(n, top=True):
+        for c in ast.iter_child_nodes(n):
+            if isinstance(c, (ast.FunctionDef, ast.AsyncFunctionDef, ast.ClassDef, ast.Lambda)):
+                if isinstance(c, (ast.FunctionDef, ast.AsyncFunctionDef)):
+                    banned.add(c.name)
+                continue
+            if isinstance(c, (ast.Global, ast.Nonlocal)):
+                banned.update(c.names)
+            if isinstance(c, ast.Name) and isinstance(c.ctx, ast.Store):
+                names.add(c.id)
+            if isinstance(c, ast.ExceptHandler) and c.name:
+                names.add(c.name)
+            if isinstance(c, (ast.Import, ast.ImportFrom)):
+                for a in c.names:
+                    banned.add((a.asname or a.name).split(".")[0])
+            walk(c, False)
+
+    walk(fn)
+    return sorted(n for n in names - params - banned if not n.startswith("__"))
+
+
+def rename(src_lines, fn, old, new):
+    """Rename Name nodes ``old`` inside ``fn`` (including nested scopes that do not rebind it as a parameter)."""
+    edits = []
+
+    def visit(n, shadow):
+        for c in ast.iter_child_nodes(n):
+            if isinstance(c, (ast.FunctionDef, ast.AsyncFunctionDef, ast.Lambda)):
+                ps = {a.arg for a in c.args.posonlyargs + c.args.args + c.args.kwonlyargs}
+                if c.args.vararg:
+                    ps.add(c.args.vararg.arg)
+                if c.args.kwarg:
+                    ps.add(c.args.kwarg.arg)
+                # nested function assigning the same name has its own local: skip entirely
+                own = any(isinstance(x, ast.Name) and x.id == old and isinstance(x.ctx, ast.Store) for x in ast.walk(c)) and not any(isinstance(x, ast.Nonlocal) and old in x.names for x in ast.walk(c))
+                if old in ps or own:
+                    # still visit decorators / defaults
+                    continue
+                visit(c, shadow)
+                continue
+            if isinstance(c, ast.Name) and c.id == old:
+                edits.append((c.lineno, c.col_offset, c.end_col_offset))
+            if isinstance(c, ast.ExceptHandler) and c.name == old:
+                # "except X as old:" — locate the name textually on the header line
+                line = src_lines[c.lineno - 1]
+                idx = line.rfind(" as " + old)
+                if idx >= 0:
+                    edits.append((c.lineno, idx + 4, idx + 4 + len(old)))
+            if isinstance(c, ast.keyword) and False:
+                pass
+            visit(c, shadow)
+
+    visit(fn, set())
+    lines = list(src_lines)
+    for ln, a, b in sorted(set(edits), reverse=True):
+        s = lines[ln - 1]
+        # col offsets are in utf-8 bytes
+        bs = s.encode("utf-8")
+        if bs[a:b].decode("utf-8") != old:
+            return None
+        lines[ln - 1] = (bs[:a] + new.encode() + bs[b:]).decode("utf-8")
+    return lines
+
+
+
+
+def rename_twins(repo: str, rel: str) -> list[tuple[str, dict[str, str]]]:
+    """(description, overlay) for every local variable of every function of ``rel``,
+    renamed consistently (including uses in nested closures and comprehensions)."""
+    path = os.path.join(repo, rel)
+    if not os.path.exists(path):
+        return []
+    with open(path, encoding="utf-8") as fh:
+        text = fh.read()
+    tree = ast.parse(text)
+    lines = text.split("\n")
+    out = []
+    for fn in [n for n in ast.walk(tree) if isinstance(n, (ast.FunctionDef, ast.AsyncFunctionDef))]:
+        for loc in locals_of(fn):
+            new = loc + "_rn"
+            if any(isinstance(x, ast.Name) and x.id == new for x in ast.walk(fn)):
+                continue
+            nl = rename(lines, fn, loc, new)
+            if nl is None:
+                continue
+            newsrc = "\n".join(nl)
+            if newsrc == text:
+                continue
+            try:
+                ast.parse(newsrc)
+            except SyntaxError:
+                continue
+            out.append((f"{rel}:{fn.name}@{fn.lineno}:{loc}", {rel: newsrc}))
+    return out
